@@ -28,6 +28,7 @@ import DSymVerif.Proofs.FundGroupRel
 import DSymVerif.Proofs.FundGroupPair
 import DSymVerif.Proofs.FundGroupPres
 import DSymVerif.Proofs.FundGroupIso
+import DSymVerif.Proofs.FundGroupTree
 import DSymVerif.Spec.C09
 
 namespace DSymVerif.C09
@@ -241,6 +242,27 @@ theorem textbook_onto_returned (ds : DSymData) (hs : ValidSym ds) (f : FundGroup
   rfl
 
 example : ValidSym (DSymData.ofSimple ex2) := ex2_validSym
+
+/-! ## 8b. the tree relators of `TGroup` are those of a spanning tree -/
+
+/-- On a connected valid symbol `spanning_tree(ds)` (the facets whose generators `TGroup ds` kills)
+    is a spanning tree of the chamber graph: its entries are facets `(d,i,None)` of the symbol,
+    there are `size − 1` of them, and every chamber is joined to one root chamber by them
+    (`TreeReach`: crossing tree facets from their recorded side).  Uses C02 `traversal_sound`,
+    `traversal_complete`, `isConnected_iff`. -/
+theorem spanning_tree_is_spanning_tree (ds : DSymData) (hv : ValidSet ds.dset) (hsize : 1 ≤ ds.size)
+    (hc : ds.view.isConnected = true) :
+    (∀ it ∈ spanningTree ds, it.2.2 = none ∧ 1 ≤ it.1 ∧ it.1 ≤ ds.size ∧ it.2.1 ≤ ds.dim) ∧
+    (spanningTree ds).length + 1 = ds.size ∧
+    ∃ root, 1 ≤ root ∧ root ≤ ds.size ∧
+      ∀ x, 1 ≤ x → x ≤ ds.size → TreeReach ds (spanningTree ds) root x := by
+  refine ⟨?_, spanningTree_spanning hv hsize hc⟩
+  intro it hit
+  obtain ⟨hn, _⟩ := spanningTree_itemOk hv it hit
+  exact ⟨hn, spanningTree_ok hv it hit hn⟩
+
+example : ValidSet ex2 ∧ 1 ≤ ex2.size ∧ (DSymData.ofSimple ex2).view.isConnected = true :=
+  ⟨ex2_valid, by decide, by decide +kernel⟩
 
 /-! ## 9. the returned presentation presents the textbook group (◐ → proved for the model) -/
 
